@@ -161,19 +161,24 @@ def main(check_name, tier, replay=None):
             print("INCONCLUSIVE baseline run:", problems)
             return 2
         findings.save_baseline(mod.BASELINE, uh, repo_rev(), case_sig, meta={"evals": m["evals"], "counters": m["counters"]})
-        # propose known-finding entries: one per signature, shortest witness
-        by_sig = {}
+        # propose known-finding entries: one per atomic mechanism, shortest witness
+        by_atom = {}
+        counts = {}
         for case, sig, detail in m["viol"]:
-            w = detail.get("doc") if isinstance(detail, dict) else None
-            cur = by_sig.get(sig)
-            if cur is None or (w is not None and cur[1] is not None and len(w) < len(cur[1])):
-                by_sig[sig] = (case, w, detail)
+            size = len(json.dumps(detail, default=str))
+            for a in findings.atoms(sig):
+                counts[a] = counts.get(a, 0) + 1
+                cur = by_atom.get(a)
+                if cur is None or size < cur[0]:
+                    by_atom[a] = (size, case, detail)
         prop_path = os.path.join(env.VERIF, "baseline", mod.BASELINE + ".proposed.json")
         with open(prop_path, "w", encoding="utf-8") as f:
             json.dump(
-                {"counts": _count_sigs(m["viol"]), "witness": {s: {"case": c, "doc": w, "detail": d} for s, (c, w, d) in sorted(by_sig.items())}},
+                {"property": prop, "counts": dict(sorted(counts.items(), key=lambda kv: -kv[1])),
+                 "witness": {a: {"case": c, "detail": d} for a, (_, c, d) in sorted(by_atom.items())}},
                 f, indent=1, default=str,
             )
+        by_sig = by_atom
         print(f"baseline {mod.BASELINE}: {m['evals']} evaluations, {len(case_sig)} violating cases, {len(by_sig)} signatures; wall {time.time()-t0:.0f}s")
         print("counters", json.dumps(m["counters"], sort_keys=True))
         print("skipped", json.dumps(m["skipped"], sort_keys=True))
@@ -193,12 +198,12 @@ def main(check_name, tier, replay=None):
             if k is None:
                 continue
             if k.get("status", "known") == "fixed":
-                new.append((case, sig, detail, "fixed-finding-returned"))
-            elif sig == k["signature"] or k.get("any_signature"):
+                if k["signature"] in findings.atoms(sig) or k.get("any_signature"):
+                    new.append((case, sig, detail, "fixed-finding-returned"))
+            elif k["signature"] in findings.atoms(sig) or k.get("any_signature"):
                 reproduced.add(fid)
-            else:
-                # the witness still violates, by another mechanism: report it
-                new.append((case, sig, detail, "witness-new-signature"))
+            # a witness that now violates only by other mechanisms is not an alarm by itself: the same
+            # input is part of the frozen universe and is judged there against its baseline entry
             continue
         cls = findings.classify(base_map, case, sig)
         if cls == "known":
